@@ -149,7 +149,8 @@ structure State where
   store : List (String × List (String × String))   -- location ("shared" | worker id) ↦ states (vm, state)
   jobResults : List (String × String × String × Nat) := []   -- (name, uid, status, duration) as reported to the job
   nextTag : Nat := 1
-  hidden : List Nat := []                  -- composite nodes not parsed yet (lazy expansion); [] for pre-parsed graphs
+  hidden : List Nat := []                  -- composite nodes not parsed yet (lazy expansion) and, as `edgeCode`s, single edges that
+                                           -- do not exist yet between parsed nodes; [] for pre-parsed graphs
   incompatible : List (Nat × Nat) := []    -- (flat node, worker): composition failed (`incompatible_workers`)
 deriving Repr
 
@@ -273,13 +274,21 @@ def isCleanupReady (g : Graph) (s : State) (n w : Nat) : Bool :=
 
 /-! ## lazy expansion: the visible graph, `is_unrolled`, `should_parse`, the reveal step -/
 
-/-- the graph as parsed so far: edges from and to nodes that are not parsed yet do not exist -/
+/-- `State.hidden` also holds EDGES that do not exist yet although both ends are parsed: the entry `edgeCode g p c`
+(above every node index) stands for the edge from parent `p` to child `c`.  The lazy parser hangs a composite node below a
+flat node only when THAT flat node is expanded for the node's worker (`parse_branches_for_node_and_object`:
+`child.descend_from_node(test_node, test_object)` for reused and newly parsed children alike) — a composite node that
+exists already because it was parsed as a dependency of another test (one node serving flat nodes of two test sets) is not
+yet a child of its own flat node. -/
+def edgeCode (g : Graph) (p c : Nat) : Nat := g.nodes.length * (p + 1) + c
+
+/-- the graph as parsed so far: edges from and to nodes that are not parsed yet do not exist, nor do hidden edges -/
 def vis (g : Graph) (s : State) : Graph :=
   if s.hidden.isEmpty then g else
   { g with nodes := (g.nodes.zipIdx).map (fun (nd, i) =>
       if s.hidden.contains i then { nd with setup := [], cleanup := [] }
-      else { nd with setup := nd.setup.filter (fun e => !s.hidden.contains e.1),
-                     cleanup := nd.cleanup.filter (fun e => !s.hidden.contains e.1) }) }
+      else { nd with setup := nd.setup.filter (fun e => !s.hidden.contains e.1 && !s.hidden.contains (edgeCode g e.1 i)),
+                     cleanup := nd.cleanup.filter (fun e => !s.hidden.contains e.1 && !s.hidden.contains (edgeCode g i e.1)) }) }
 
 def Graph.nodeId (g : Graph) (n : Nat) : String := (g.node n).pfx ++ "-" ++ (g.node n).name
 
@@ -306,13 +315,14 @@ def closeUp (g : Graph) : Nat → List Nat → List Nat
     if more.isEmpty then acc else closeUp g fuel (acc ++ dedupNat more)
 
 /-- `parse_paths_to_object_roots(flat, worker.net)`: the composite leaves of the flat node for this worker and all
-their ancestors become visible; no leaf for this worker = incompatible -/
+their ancestors become visible, and so do the edges from the flat node to these leaves (reused or new); no leaf for this
+worker = incompatible -/
 def reveal (g : Graph) (s : State) (f w : Nat) : State :=
   let leaves := ((g.node f).cleanup.map (·.1)).filter (fun c => (g.node c).owner == some w)
   if leaves.isEmpty then { s with incompatible := s.incompatible ++ [(f, w)] }
   else
     let all := closeUp g g.nodes.length leaves
-    { s with hidden := s.hidden.filter (fun h => !all.contains h) }
+    { s with hidden := s.hidden.filter (fun h => !all.contains h && !(leaves.map (edgeCode g f)).contains h) }
 
 /-- start of a loop iteration with a path longer than one: remember whether unexplored flat nodes exist and expand
 the flat node at hand when it is not unrolled for this worker -/
